@@ -9,6 +9,7 @@ import (
 )
 
 func init() {
+	verifRegister("VerifC16_EFmtSeq", VerifC16_EFmtSeq)
 	verifRegister("VerifC16_EFmt", VerifC16_EFmt)
 	verifRegister("VerifC16_EFmtFree", VerifC16_EFmtFree)
 	verifRegister("VerifC16_EForms", VerifC16_EForms)
@@ -269,6 +270,44 @@ func VerifC16_EFmtFree() {
 	vCover("accepted")
 }
 
+// What Format returns for a source does not depend on what the process formatted before, and
+// formatting is idempotent also for sources that are nothing but blank lines and comments: a prior
+// Format call (3 kinds, or none), then a subject made of 0..3 whitespace bytes (space, newline;
+// thorough: also tab, carriage return -- solver chosen), a body out of 7 (comment-only, comment + form, form
+// only, empty) and 0..2 trailing newlines, in two configurations.
+func VerifC16_EFmtSeq() {
+	priors := []string{"", "(a b)\n", "; lead\n(a)\n", "\n\n; only\n"}
+	bodies := []string{"; c\n", "; c", "; c\n; d\n", "; c\n\n; d\n(a)\n", "(a) ; t\n", "(a)\n\n\n; end\n", ""}
+	pi := vndChoice("prior", len(priors))
+	cfgk := vndChoice("config", 2)
+	if pi > 0 {
+		_, err := formatter.Format([]byte(priors[pi]), c16Config(cfgk))
+		vAssert(err == nil, "prior source formats")
+	}
+	n := vndChoice("lead", 4)
+	var src []byte
+	for i := 0; i < n; i++ {
+		src = append(src, " \n\t\r"[vndChoice("ws", vParam("wskinds", 2))])
+	}
+	src = append(src, bodies[vndChoice("body", len(bodies))]...)
+	for i, m := 0, vndChoice("trail", 3); i < m; i++ {
+		src = append(src, '\n')
+	}
+	vObserve("src", string(src))
+	want, okIn := parseStrict(string(src))
+	vAssume(okIn)
+	out, err := formatter.Format(src, c16Config(cfgk))
+	vAssert(err == nil, "input the reader accepts is formatted")
+	got, okOut := parseStrict(string(out))
+	vAssert(okOut && treesEq(got, want), "the formatted text reads back to the identical trees")
+	vAssert(sameStrings(c16Comments(c16Tokens(string(out))), c16Comments(c16Tokens(string(src)))), "every comment is still present, in order")
+	out2, err2 := formatter.Format(out, c16Config(cfgk))
+	vAssert(err2 == nil && string(out2) == string(out), "formatting its own output changes nothing")
+	out3, err3 := formatter.Format(src, c16Config(cfgk))
+	vAssert(err3 == nil && string(out3) == string(out), "the same source formats to the same text whatever was formatted before")
+	vCover("end")
+}
+
 // ---- C17
 
 var c17Progs = []string{
@@ -328,6 +367,24 @@ var c17Sessions = [][]string{
 		"(in-package 'lib) (defun dupfn (val) (+ val 1)) (defun onlyone (val) (dupfn val))",
 		"(in-package 'lib) (defun dupfn (val) (+ val 2)) (defun onlytwo (val) (dupfn val))",
 		"(in-package 'user) (debug-print (lib:dupfn A) (lib:onlyone B) (lib:onlytwo B))",
+	},
+	// files that define NOTHING the minifier renames but refer, unqualified, to a private function of
+	// another file: an api file of exported functions only, a file of top-level sets, an entry file
+	// that only calls
+	{
+		"(defun clampfn (val) (if (> val 3) 3 val)) (defun scalefn (val) (* (clampfn val) 10))",
+		"(export 'apifn) (defun apifn (val) (scalefn (clampfn val)))",
+		"(debug-print (apifn A) (apifn B))",
+	},
+	{
+		"(defun mainfn () (debug-print (helperfn A) B)) (defun helperfn (val) (+ val 100))",
+		"(set 'topset 5) (export 'usetop) (defun usetop () (+ topset (helperfn 1)))",
+		"(mainfn) (debug-print (usetop) topset)",
+	},
+	{
+		"(in-package 'lib) (defun privfn (val) (* val 7))",
+		"(in-package 'lib) (export 'pubfn 'pubtwo) (defun pubfn (val) (privfn val)) (defun pubtwo () (privfn 2))",
+		"(in-package 'user) (debug-print (lib:pubfn A) (lib:pubtwo))",
 	},
 }
 
